@@ -3,7 +3,7 @@ import ast
 
 from ..astx import (calls_in, dotted, norm, src, iter_nodes, assigned_targets, assigned_names,
                     const_value, is_const, parent_chain, aliases_of)
-from ..lib import (is_bytes_mode_text_guard, cfg_nodes_with_call, node_calls, returns, stmt_assigns_attr, callee_last,
+from ..lib import (raises, call_arg, relation, truth, other, cmp_views, core, holds_region, conditions, eval_conditions, relation_tests, atom_key, expand_condition, mode_mismatch_conditions, is_bytes_mode_text_guard, cfg_nodes_with_call, node_calls, returns, stmt_assigns_attr, callee_last,
                    is_name, is_self_attr, node_roots, guard_region)
 from ..linear import ctext
 from ..loader import AnalysisError
@@ -80,10 +80,10 @@ def run(R):
         g = f.cfg
         rets = returns(f)
         plain = [r for r in rets if is_name(r.ast.value, f.params[1])]
-        tests = [t for t in g.nodes if t.kind == 'test']
-        okp = len(plain) == 1 and len(tests) == 1 and is_bytes_mode_text_guard(tests[0].ast, f.params[1], True)
-        c.check(okp, f, tests[0].ast if tests else None, 'only non-bytes given to a bytes-mode object are converted; everything else is returned unchanged',
-                witness=norm(tests[0].ast) if tests else '', kind='ast', tag='coerce-guard')
+        got = conditions(g, g.node_for(encs[0])) if encs else None
+        okp = len(plain) == 1 and len(rets) == 2 and not raises(f) and got == mode_mismatch_conditions(f.params[1], True)
+        c.check(okp, f, encs[0] if encs else None, 'only non-bytes given to a bytes-mode object are converted; everything else is returned unchanged',
+                witness='converted under %s' % sorted(got or []), kind='path', tag='coerce-guard')
 
 
 def check_pipeline(c, f):
@@ -112,8 +112,8 @@ def check_pipeline(c, f):
         if not ok:
             continue
         enc = bdefs[0].ast.value
-        fin = [kw for kw in enc.keywords if kw.arg == 'final']
-        c.check((not fin or is_const(fin[0].value, False)) and len(enc.args) == 1, f, enc, 'encoder called with final=False', witness=norm(enc), kind='ast', tag='enc-final')
+        fin = call_arg(enc, 'final', 1)
+        c.check((fin is None or is_const(fin, False)) and len(enc.args) + len(enc.keywords) <= 2, f, enc, 'encoder called with final=False', witness=norm(enc), kind='ast', tag='enc-final')
         sarg = enc.args[0]
         if not isinstance(sarg, ast.Name):
             c.bad(f, enc, 'the encoder input is transformed (must be exactly the coerced argument)', witness=norm(enc), kind='flow', tag='encode-coerced')
